@@ -388,3 +388,17 @@ Example C02_url_quirks :
   /\ parse_gcs_url (a2b "/bkt") = None
   /\ parse_gcs_url (a2b "/") = None.
 Proof. vm_compute. repeat split. Qed.
+
+(* GCS-18 repaired: object names are non-empty valid UTF-8 in every state reachable through the name
+   check in front of the handlers (Wire.v) *)
+From Emu.Common Require Import Utf8.
+From Emu.GCS Require Import Wire WireProofs.
+Theorem C02_wire_names_utf8 : forall rs b bk n o,
+  get_bucket (fst (run_wire init_state rs)) b = Some bk -> In (n, o) bk -> utf8_valid n = true.
+Proof. exact wire_reachable_names_utf8. Qed.
+Print Assumptions C02_wire_names_utf8.
+
+Theorem C02_wire_names_nonempty : forall rs b bk,
+  get_bucket (fst (run_wire init_state rs)) b = Some bk -> ~ In [] (map fst bk).
+Proof. exact wire_reachable_names_nonempty. Qed.
+Print Assumptions C02_wire_names_nonempty.
